@@ -27,8 +27,9 @@ def setup_env():
     os.environ['PYTHONDONTWRITEBYTECODE'] = '1'
     os.environ.setdefault('PYTHONHASHSEED', '0')
     sys.dont_write_bytecode = True
-    if '/repo' not in sys.path:
-        sys.path.insert(0, '/repo')
+    repo = os.environ.get('VERIF_REPO', '/repo')       # default: the repository's working tree
+    if repo not in sys.path:
+        sys.path.insert(0, repo)
 
 
 def tier() -> str:
@@ -171,14 +172,15 @@ class Report:
         self.known_hits[fid] = self.known_hits.get(fid, 0) + 1
 
     def finish(self, extra_cov: Optional[Dict[str, Any]] = None) -> int:
-        os.makedirs(os.path.join(VERIF, 'evidence'), exist_ok=True)
+        out_root = os.environ.get('VERIF_OUT', VERIF)      # tools/seed_matrix.sh keeps its output away from evidence/ and replays/
+        os.makedirs(os.path.join(out_root, 'evidence'), exist_ok=True)
         rc = 0
         lines = []
         for fid, n in sorted(self.known_hits.items()):
             kf = [k for k in known_findings(self.prop) if k['id'] == fid]
             what = kf[0]['what'] if kf else ''
             lines.append('KNOWN-FINDING: property=%s %s %s (%d cases)' % (self.prop, fid, what, n))
-        rdir = os.path.join(VERIF, 'replays', self.prop)
+        rdir = os.path.join(out_root, 'replays', self.prop)
         if os.path.isdir(rdir) and self.technique != 'replay':
             for fn in os.listdir(rdir):            # replay files of earlier runs would only mislead
                 if fn.endswith('.json'):
@@ -217,7 +219,7 @@ class Report:
             'coverage': cov, 'assumptions': self.assumptions,
             'wall_s': round(time.time() - self.t0, 2), 'violations': len(self.violations),
         }
-        with open(os.path.join(VERIF, 'evidence', self.prop + '.json'), 'w') as f:
+        with open(os.path.join(out_root, 'evidence', self.prop + '.json'), 'w') as f:
             json.dump(ev, f, indent=1, sort_keys=True, default=str)
         for ln in lines:
             print(ln)
